@@ -15,10 +15,10 @@ package util
 //@   callsite Compile: assert anchors: len(sb[addr(pattern)]) >= 2 && sb[addr(pattern)][0] == 94 && sb[addr(pattern)][len(sb[addr(pattern)]) - 1] == 36
 //@   ensures  compiled-here: result.1 == nil ==> (n_compile == old(n_compile) + 1 && result.0 == last_compiled)
 //@   modifies sb, lx, n_compile, last_compiled, last_compiled_src
-//@   loop 0: invariant n_compile == old(n_compile)
+//@   loop over globs: invariant n_compile == old(n_compile)
 //@   loop 1: invariant n_compile == old(n_compile)
-//@   loop 0: invariant outer: lex_depth(lx[addr(pattern)]) == 1 && !lex_esc(lx[addr(pattern)]) && !lex_cls(lx[addr(pattern)]) && !lex_alt0(lx[addr(pattern)])
-//@   loop 0: invariant starts: len(sb[addr(pattern)]) >= 1 && sb[addr(pattern)][0] == 94
+//@   loop over globs: invariant outer: lex_depth(lx[addr(pattern)]) == 1 && !lex_esc(lx[addr(pattern)]) && !lex_cls(lx[addr(pattern)]) && !lex_alt0(lx[addr(pattern)])
+//@   loop over globs: invariant starts: len(sb[addr(pattern)]) >= 1 && sb[addr(pattern)][0] == 94
 //@   loop 1: invariant inner: lex_depth(lx[addr(pattern)]) == 2 && !lex_esc(lx[addr(pattern)]) && !lex_cls(lx[addr(pattern)]) && !lex_alt0(lx[addr(pattern)])
 //@   loop 1: invariant no-brackets: forall k: int :: 0 <= k && k < len(g) ==> (g[k] != 91 && g[k] != 93)
 //@   loop 1: invariant starts: len(sb[addr(pattern)]) >= 1 && sb[addr(pattern)][0] == 94 && i >= 0
